@@ -505,6 +505,12 @@ def corpus_shard(arg):
     lines = []
     for case, _ in evald:
         lines.extend(model_lines(case))
+    seq_at = {}
+    for i, (case, real) in enumerate(evald):
+        outs = [real['inline'], real['runtime']] + real['inline_then'] + real['runtime_then']
+        if case.get('then') and not any(o[0] == 'skip' or o == ['err', 'RecursionError'] for o in outs):
+            seq_at[i] = len(lines)
+            lines.extend(seq_lines(case))
     answers = proto.run_lines(lines)
     for i, (case, real) in enumerate(evald):
         for j, m in enumerate(('inline', 'runtime')):
@@ -514,6 +520,21 @@ def corpus_shard(arg):
             res.streams['corpus-' + m] = res.streams.get('corpus-' + m, 0) + 1
             if mo != real[m]:
                 res.disagreements.append({'stream': 'corpus-' + m, 'case': case, 'model': repr(mo)[:600], 'real': repr(real[m])[:600]})
+        if i in seq_at:
+            # several requests through one loader: outcomes in both modes, and the loader's prepared templates after
+            # every request (failed ones included) in inline mode
+            for j, m in enumerate(('inline', 'runtime')):
+                dec = seq_outcomes(answers[seq_at[i] + 2 * j])
+                if dec is None:
+                    continue
+                mo, mc = dec
+                ro = [real[m]] + real[m + '_then']
+                res.streams['corpus-sequence-' + m] = res.streams.get('corpus-sequence-' + m, 0) + 1
+                if mo != ro:
+                    res.disagreements.append({'stream': 'corpus-sequence-' + m, 'case': case, 'model': repr(mo)[:600], 'real': repr(ro)[:600]})
+                if m == 'inline' and mc != real['inline_prepared']:
+                    res.disagreements.append({'stream': 'corpus-loader-after-request', 'case': case, 'model': repr(mc)[:600],
+                                              'real': repr(real['inline_prepared'])[:600]})
     return res
 
 
